@@ -264,22 +264,13 @@ func (te *tableEngine) playersAutoIn() {
 		}
 	})
 	te.rg.OnCompleted(func(rg *syncsaga.ReadyGroup) {
-		isInCount := 0
-		alivePlayers := 0
-		for playerIdx, player := range te.table.State.PlayerStates {
+		// this runs on the ready group's own goroutine: the player list is only read under the
+		// engine lock, players may be leaving meanwhile
+		for _, playerID := range te.notInPlayerIDs() {
 			// 如果時間到了還沒有入座則自動入座
-			if !player.IsIn {
-				te.PlayerJoin(player.PlayerID)
-			}
-
-			if te.table.State.PlayerStates[playerIdx].IsIn {
-				isInCount++
-			}
-
-			if te.table.State.PlayerStates[playerIdx].Bankroll > 0 {
-				alivePlayers++
-			}
+			te.PlayerJoin(playerID)
 		}
+		isInCount, alivePlayers := te.countInAndAlivePlayers()
 
 		// 等所有玩家 is_in 且大於開打人數，且未開始 game，則開始遊戲
 		gameStartingStatuses := []TableStateStatus{
@@ -310,6 +301,37 @@ func (te *tableEngine) playersAutoIn() {
 	}
 
 	te.rg.Start()
+}
+
+func (te *tableEngine) notInPlayerIDs() []string {
+	te.lock.Lock()
+	defer te.lock.Unlock()
+
+	playerIDs := make([]string, 0)
+	for _, player := range te.table.State.PlayerStates {
+		if !player.IsIn {
+			playerIDs = append(playerIDs, player.PlayerID)
+		}
+	}
+	return playerIDs
+}
+
+func (te *tableEngine) countInAndAlivePlayers() (int, int) {
+	te.lock.Lock()
+	defer te.lock.Unlock()
+
+	isInCount := 0
+	alivePlayers := 0
+	for _, player := range te.table.State.PlayerStates {
+		if player.IsIn {
+			isInCount++
+		}
+
+		if player.Bankroll > 0 {
+			alivePlayers++
+		}
+	}
+	return isInCount, alivePlayers
 }
 
 func (te *tableEngine) batchRemovePlayers(playerIDs []string) error {
